@@ -6,6 +6,10 @@ CHECKS = {
    technique="bounded-exhaustive enumeration of all strings/lists/templates over a small alphabet against reference splitters, inside the real packages",
    text="Every argument list / raw string / constraint expression / template up to the stated length over an alphabet of all metacharacters is enumerated and the real function is compared with a reference (round-trip law, go/build/constraint, a reference expander). Exhaustive within the bound, so any change that mishandles some combination of <=3-7 metacharacters is found.",
    note="Reference splitters are written from the documented grammar; pkg-config is a canned script; lengths bounded (quick: args<=3 chars x lists<=2, raw<=5; thorough: raw<=7).", ref="§4 C17"),
+ "C18": dict(cat="model_checking", engine="enum",
+   technique="explicit enumeration of all inheritance forests (<=3 nodes x all define-patterns; 4 nodes thorough) through the real Loader vs an independent resolver on the raw JSON",
+   text="Every forest of <=3 descriptions with <=2 ordered parents each (chains, diamonds, self-loops, 2/3-cycles, missing parents) x every subset of nodes defining every Config field (fields found by reflection) is written to disk and loaded with cold and warm caches in both orders; results must equal an independent resolver, missing/cyclic parents must give an error (run in a child process so a crash or hang is observed). All shipped targets are resolved in three load orders against the same reference.",
+   note="'defined' = non-zero value; forests are bounded at 3 nodes (4 in thorough, rotating define-patterns); useTarget's flag derivation is not covered.", ref="§4 C18"),
 }
 ALL = ["C%02d" % i for i in range(1, 21)]
 m = {
